@@ -341,12 +341,15 @@ where
             wrapper_event_id: *wrapper_event_id,
         };
 
+        // The welcome goes first: if the process dies between the two writes, the retry finds the
+        // stored welcome by its rumor id and only adds the wrapper record. The other order would
+        // leave a Processed record pointing at a welcome that was never stored.
         self.storage()
-            .save_processed_welcome(processed_welcome)
+            .save_welcome(welcome.clone())
             .map_err(|e| Error::Welcome(e.to_string()))?;
 
         self.storage()
-            .save_welcome(welcome.clone())
+            .save_processed_welcome(processed_welcome)
             .map_err(|e| Error::Welcome(e.to_string()))?;
 
         Ok(welcome)
